@@ -16,6 +16,8 @@ def env_seed():
 # ----------------------------------------------------------------------------------------------
 def same_failure(kind):
     def f(r):
+        if r.get("snaps") and "opts" in r:
+            snap_oracle("", "", r)
         p = first_problem(r)
         if p is None:
             return False
@@ -35,7 +37,11 @@ def classify(prob):
     return "diff:" + c.split()[0]
 
 
-def history_oracle(rep, cases, opts_of, rundir, profiles=("debug",), on_result=None, max_report=3,
+def snap_oracle(label, text, r):
+    vlib.check_snapshots(r, r["opts"].get("pagesize", 1024))
+
+
+def history_oracle(rep, cases, opts_of, rundir, profiles=("debug",), on_result=snap_oracle, max_report=3,
                    shrink_budget=45, timeout=120):
     """run cases under each profile; record violations (shrunk) into rep; returns (#cases run, #failed)"""
     failed = 0
@@ -57,6 +63,8 @@ def history_oracle(rep, cases, opts_of, rundir, profiles=("debug",), on_result=N
             small = shrink(text, o, rundir, prof, same_failure(kind), budget_s=shrink_budget)
             d = rundir.sub()
             r2 = vlib.run_history(small, o, d, profile=prof)
+            if on_result:
+                on_result(label, small, r2)
             shutil.rmtree(d, ignore_errors=True)
             p2 = first_problem(r2) or p
             rep.violation(describe_problem(label + " [" + prof + "]", p2),
@@ -73,6 +81,7 @@ def replay_history(prop, path):
     rd = RunDir()
     try:
         r = vlib.run_history("\n".join(obj["history"]) + "\n", obj.get("opts", {}), rd.sub(), profile=obj.get("profile", "debug"))
+        snap_oracle("", "", r)
         p = first_problem(r)
         if p:
             print(describe_problem("replay", p))
@@ -162,33 +171,107 @@ def opts_c01(label):
     return dict(pagesize=[1024, 4096][h % 2], num_pages=[4, 32][(h // 2) % 2])
 
 
-def check_c01(tier, seed):
-    rep = Report("C01", tier, seed, "proof")
-    b = vlib.build(release=True)
-    gate = vlib.proof_gate("C01", b)
+def history_property(prop, tier, seed, cases, opts_of, rule, on_result=snap_oracle, profiles=None,
+                     release_sample=7, extra=None, level="proof", trusted=None, build_kw=None):
+    """generic check: proof gate + histories against the reference (+ extra oracles)"""
+    rep = Report(prop, tier, seed, level)
+    b = vlib.build(release=True, **(build_kw or {}))
+    gate = vlib.proof_gate(prop, b)
     rd = RunDir()
     try:
-        cases = cases_c01(tier, seed)
-        profiles = ("debug", "release") if tier == "thorough" else ("debug",)
+        profiles = profiles or (("debug", "release") if tier == "thorough" else ("debug",))
         failed = 0
+        stats = {}
         if b.cargo_ok and b.extract_ok:
-            failed = history_oracle(rep, cases, opts_c01, rd, profiles=profiles)
-            if tier == "quick":
-                failed += history_oracle(rep, cases[::7], opts_c01, rd, profiles=("release",))
-        rep.cov["rule"] = ("families G1 (uniform ops, depth<=3), G1-long-keys, G2 (fill + contiguous range deletes), "
-                           "G3 (shape enumeration, 200-byte keys @1024), G4 (nested bucket deletes), G5 (overflow), Gmis; "
-                           "non-trivial = history with > 5 executed calls; distinct = by hash of the history text")
-        rep.sample(dict(label=cases[0][0], history_head=cases[0][1].split("\n")[:12]))
+            corpus = corpus_cases(prop)
+            failed += history_oracle(rep, corpus, lambda l: corpus_opts(l), rd, profiles=("debug", "release"), on_result=on_result)
+            failed += history_oracle(rep, cases, opts_of, rd, profiles=profiles, on_result=on_result)
+            if tier == "quick" and release_sample and "release" not in profiles:
+                failed += history_oracle(rep, cases[::release_sample], opts_of, rd, profiles=("release",), on_result=on_result)
+            if extra:
+                failed += extra(rep, rd, b) or 0
+        rep.cov["rule"] = rule
+        if cases:
+            rep.sample(dict(label=cases[0][0], history_head=cases[0][1].split("\n")[:14]))
         rep.cov["traces_validated_against_impl"] = rep.cov["evaluations"]
-        rep.cov["failed_histories"] = failed
-        fill_proof_cov(rep, gate, TRUSTED_COMMON)
-        gate_or_search(rep, "C01", b, gate, failed > 0)
+        rep.cov["failed_cases"] = failed
+        rep.cov.update(COUNTERS.pop(prop, {}))
+        fill_proof_cov(rep, gate, trusted or TRUSTED_COMMON)
+        gate_or_search(rep, prop, b, gate, failed > 0)
         return rep.finish()
     finally:
         rd.cleanup()
 
 
-CHECKS = {"C01": check_c01}
+COUNTERS = {}
+CORPUS_OPTS = {}
+
+
+def corpus_cases(prop):
+    """minimised past failures run first; every history check runs the whole corpus (cheap)"""
+    out = []
+    d = os.path.join(vlib.ROOT, "corpus")
+    for f in sorted(os.listdir(d)) if os.path.isdir(d) else []:
+        if not f.endswith(".txt"):
+            continue
+        txt = open(os.path.join(d, f)).read()
+        opts = dict(pagesize=1024, num_pages=32)
+        for ln in txt.split("\n")[:3]:
+            if ln.startswith("# opts "):
+                opts = json.loads(ln[7:])
+        label = "corpus/" + f
+        CORPUS_OPTS[label] = opts
+        out.append((label, txt))
+    return out
+
+
+def corpus_opts(label):
+    return CORPUS_OPTS.get(label, dict(pagesize=1024, num_pages=32))
+
+
+def check_c01(tier, seed):
+    return history_property(
+        "C01", tier, seed, cases_c01(tier, seed), opts_c01,
+        "families G1 (uniform ops, depth<=3), G1-long-keys, G2 (fill + contiguous range deletes), "
+        "G3 (shape enumeration, 200-byte keys @1024), G4 (nested bucket deletes), G5 (overflow), Gmis + corpus; "
+        "every call compared with the extracted reference; after every commit the file is decoded by the Gallina "
+        "decoder (inv_check + contents = reference); non-trivial = history with > 5 executed calls; distinct by hash")
+
+
+# ----------------------------------------------------------------------------------------------
+# C08
+# ----------------------------------------------------------------------------------------------
+def c08_oracle(label, text, r):
+    snap_oracle(label, text, r)
+    n = vlib.cursor_corr(r, r["opts"].get("pagesize", 1024))
+    c = COUNTERS.setdefault("C08", dict(cursor_calls_model_vs_library=0))
+    c["cursor_calls_model_vs_library"] += n
+
+
+def cases_c08(tier, seed):
+    n = 1 if tier == "quick" else 10
+    cases = []
+    for i in range(4 * n):
+        cases.append(("g8 empty seed=%d" % (seed * 100 + i), gen.g8(seed * 100 + i, "empty")))
+    for i in range(16 * n):
+        cases.append(("g8 single seed=%d" % (seed * 100 + i), gen.g8(seed * 100 + i, "single")))
+    for i in range(40 * n):
+        cases.append(("g8 multi seed=%d" % (seed * 100 + i), gen.g8(seed * 100 + i, "multi")))
+    return cases
+
+
+def check_c08(tier, seed):
+    return history_property(
+        "C08", tier, seed, cases_c08(tier, seed), dict(pagesize=1024, num_pages=64),
+        "family G8: empty / single-leaf / multi-level (120-300 byte keys @1024) buckets; seeks and gets at every "
+        "present key, every gap, below min, above max; sampled bound pairs x {Included,Excluded,Unbounded}^2; "
+        "buckets/kv_pairs filters; 2-3 extra next() after the end; committed (read-only tx: library vs the "
+        "extracted Coq cursor machine on the decoded file, exact; and vs the reference) and mid-transaction "
+        "(vs the reference); non-trivial = > 5 calls",
+        on_result=c08_oracle)
+
+
+CHECKS = {"C01": check_c01, "C08": check_c08}
 
 
 def main(argv):
